@@ -131,6 +131,16 @@ impl Net {
         self.log.push(json!({"e": "rr_outcome", "id": id, "outcome": outcome}));
     }
 
+    /// the side that opened substream `id` shuts its write half down by reference; the substream objects on
+    /// both sides stay (at A: write-half-closed if A opened it, read-only after the remote's FIN if B did)
+    async fn half_close(&self, s: &str, ids: &HashMap<u64, (bool, usize)>, id: u64, sink: bool) {
+        let Some((from_a, sid)) = ids.get(&id).copied() else { return };
+        let node = if from_a { &self.a } else { &self.b };
+        let r = node.half_close("q1", sid, sink).await;
+        self.log.push(json!({"e": "half_close", "s": s, "id": id, "by": if from_a { "A" } else { "B" }, "how": if sink { "sink_close" } else { "shutdown" },
+            "ret": r.err().unwrap_or("ok".into()), "t": after(&self.log)}));
+    }
+
     async fn drop_sub(&self, s: &str, ids: &mut HashMap<u64, (bool, usize)>, id: u64) {
         let Some((from_a, sid)) = ids.remove(&id) else { return };
         let ends_before = self.log.count_from(0, |v| is(v, "sub_in_end") && v["n"] == "A");
@@ -140,6 +150,7 @@ impl Net {
         } else {
             // B drops its end; A's inbound substream object goes away when A's echo job sees the end
             self.b.drop_one("q1", sid).await;
+            self.a.cmd("q1", netcommon::node::ProtoCmd::ReleaseInbound { sid: Some(sid) }).await;
             self.log.wait(Duration::from_secs(3), |l| l.iter().filter(|v| is(v, "sub_in_end") && v["n"] == "A").count() > ends_before).await;
         }
         self.log.push(json!({"e": "drop_done", "s": s, "t": after(&self.log), "id": id}));
@@ -168,6 +179,8 @@ async fn run_net(sc: &Value) -> (Vec<Value>, f64, Option<String>) {
     // request-response networks: A speaks /verif/x/2 with fallback /verif/x/1; B speaks only the old name
     // (the inbound substream at A is negotiated under the fallback name) or the new one
     let rr_kind = sc["kind"] == "rr";
+    // half-closed holds: A keeps inbound substreams after the remote's end of stream
+    ca.keep_eof = sc["kind"] == "half";
     if rr_kind {
         ca.rr = Some(("/verif/x/2".into(), vec!["/verif/x/1".into()]));
         cb.rr = Some((if sc["fallback"].as_bool().unwrap_or(true) { "/verif/x/1" } else { "/verif/x/2" }.to_string(), vec![]));
@@ -260,6 +273,7 @@ async fn run_net(sc: &Value) -> (Vec<Value>, f64, Option<String>) {
                 // a substream that fails to negotiate: the remote does not speak the protocol
                 "open_unsupported" => net.open(&prim, true, "qa", true, &mut ids, id).await,
                 "ropen_unsupported" if !double => net.open(&prim, false, "qb", true, &mut ids, id).await,
+                "half" if sc["kind"] == "half" => net.half_close(&prim, &ids, id, act["how"] != "shutdown").await,
                 "drop" => net.drop_sub(&prim, &mut ids, id).await,
                 _ => {}
             }
